@@ -133,7 +133,11 @@ def build(env, spec):
     if spec.get('partition'):
         from PEPit.functions import BlockSmoothConvexFunction
         d = spec['partition']
-        part = pep.declare_block_partition(d=d)
+        if spec.get('partition_direct'):
+            from PEPit import BlockPartition
+            part = BlockPartition(d)            # the public constructor instead of pep.declare_block_partition
+        else:
+            part = pep.declare_block_partition(d=d)
         m.partition = part
         Ls = [env.real("L%d" % k, lo=0, lo_strict=True) for k in range(d)]
         f = pep.declare_function(BlockSmoothConvexFunction, partition=part, L=Ls)
@@ -164,6 +168,8 @@ def build(env, spec):
         m.params.update(p2)
     x0 = pep.set_initial_point()
     m.points['x0'] = x0
+    if spec.get('mid_build'):
+        spec['mid_build']()         # harness callback in the middle of the construction (C12: earlier objects released here)
     R = env.real("R")
     if spec.get('stationary', True):
         xs = F.stationary_point()
